@@ -62,7 +62,7 @@ Proof.
 Qed.
 
 (* ------------------------------------------------------------------ close() ends in a closed state *)
-Definition boot_phase (ph : phase) : Prop := match ph with PBootConn _ _ | PBootReq _ _ _ => True | _ => False end.
+Definition boot_phase (ph : phase) : Prop := match ph with PBootConn _ _ | PBootReq _ _ _ | PWait _ => True | _ => False end.
 
 Lemma phase_set_same C p ph : nth_error (c_ops C) p <> None -> phase_of (set_phase C p ph) p = ph.
 Proof.
@@ -84,6 +84,7 @@ Proof.
   - set (X := match nth_error (c_ops C) p0 with
               | Some (mkOp _ _ _ (PBootConn a rest)) => let (C', o') := boot_next (set_boot C a KDead) p0 rest in (C', OBootCancel a :: o')
               | Some (mkOp _ _ _ (PBootReq a t rest)) => let (C', o') := boot_next C p0 rest in (C', OCancelTimer t :: OBootLose a :: o')
+              | Some (mkOp _ _ _ (PWait t)) => let (C', o') := op_fail C p0 RCancelled in (C', OCancelTimer t :: o')
               | _ => (C, []) end).
     assert (c_clients (fst X) = None /\ length (c_ops (fst X)) = length (c_ops C) /\ ~ boot_phase (phase_of (fst X) p0)
             /\ forall p, p <> p0 -> phase_of (fst X) p = phase_of C p) as (A1 & A0 & A2 & A3).
@@ -95,6 +96,10 @@ Proof.
         + rewrite phase_set_same by (cbn [c_ops set_boot with_boots]; congruence). cbn. tauto.
         + intros p N. rewrite phase_set_other by exact N. reflexivity.
       - unfold boot_next, closing. rewrite Hc. unfold op_fail. rewrite Eo. cbn [fst].
+        split; [exact Hc|]. split; [unfold set_phase; cbn [c_ops with_ops]; apply nth_upd_length|]. split.
+        + rewrite phase_set_same by congruence. cbn. tauto.
+        + intros p N. rewrite phase_set_other by exact N. reflexivity.
+      - unfold op_fail. rewrite Eo. cbn [fst].
         split; [exact Hc|]. split; [unfold set_phase; cbn [c_ops with_ops]; apply nth_upd_length|]. split.
         + rewrite phase_set_same by congruence. cbn. tauto.
         + intros p N. rewrite phase_set_other by exact N. reflexivity. }
@@ -132,13 +137,14 @@ Proof.
   constructor; auto.
   (* every operation has ended *)
   intros p op Hp.
-  destruct (o_phase op) as [rest i h|a rest|a t rest|] eqn:Eph; [| | |reflexivity]; exfalso.
+  destruct (o_phase op) as [rest i h|a rest|a t rest| |t] eqn:Eph; [| | |reflexivity|]; exfalso.
   - destruct (s_ops _ _ _ S' p op rest i h Hp Eph) as (n & s & qs & q & A & B & _ & [E|E]); [|discriminate].
     destruct (cores_nth_inv _ _ _ _ _ A) as (b & Hb & _ & <- & <-).
     destruct (TInvC_bc _ _ _ _ T' Hb) as (I & L & Dd & _).
     destruct (q_timer q) as [t|] eqn:Et; [|congruence].
     destruct (Dd h q t B Et) as [_ [X|[]]]. apply X. apply closed_all_fired; [exact I | exact (D i b Hb) |].
     rewrite <- L. apply nth_error_Some. congruence.
+  - apply (boots_done p op); [exact Hp | rewrite Eph; exact I].
   - apply (boots_done p op); [exact Hp | rewrite Eph; exact I].
   - apply (boots_done p op); [exact Hp | rewrite Eph; exact I].
 Qed.
@@ -237,7 +243,7 @@ Proof.
   destruct X as [C1 o1]. cbn [fst snd] in H1, Q1.
   destruct (q_owner q) as [d|p]; [split; [exact H1 | apply quiet_app; [exact Q1 | reflexivity]]|].
   destruct (nth_error (c_ops C1) p) as [[k al rid ph]|]; [|split; [exact H1 | apply quiet_app; [exact Q1 | reflexivity]]].
-  destruct ph as [rest i' h'| | |]; try (split; [exact H1 | apply quiet_app; [exact Q1 | reflexivity]]).
+  destruct ph as [rest i' h'| | | |]; try (split; [exact H1 | apply quiet_app; [exact Q1 | reflexivity]]).
   destruct (Nat.eqb i i' && Nat.eqb h h'); [|split; [exact H1 | apply quiet_app; [exact Q1 | reflexivity]]].
   destruct (if q_to q then RTimedOut else res_of oc);
     try (pose proof (op_known_closing_none C1 p rid rest H1) as N; pose proof (op_known_closing_quiet C1 p rid rest H1) as Q;
@@ -282,6 +288,7 @@ Proof.
   set (X := match nth_error (c_ops C) p with
             | Some (mkOp _ _ _ (PBootConn a rest)) => let (C', o') := boot_next (set_boot C a KDead) p rest in (C', OBootCancel a :: o')
             | Some (mkOp _ _ _ (PBootReq a t rest)) => let (C', o') := boot_next C p rest in (C', OCancelTimer t :: OBootLose a :: o')
+            | Some (mkOp _ _ _ (PWait t)) => let (C', o') := op_fail C p RCancelled in (C', OCancelTimer t :: o')
             | _ => (C, []) end).
   assert (c_clients (fst X) = None /\ quiet (snd X)) as [H1 Q1].
   { unfold X. destruct (nth_error (c_ops C) p) as [[k al rid ph]|]; [|split; [exact H | reflexivity]].
@@ -291,7 +298,9 @@ Proof.
       destruct (boot_next (set_boot C a KDead) p rest). cbn [fst snd] in *. split; [exact N | exact Q].
     - pose proof (boot_next_closing_quiet C p rest H) as Q.
       pose proof (g_boot_next Rnone Rnone_refl Rnone_trans Rnone_frame2 C p rest H) as N.
-      destruct (boot_next C p rest). cbn [fst snd] in *. split; [exact N | exact Q]. }
+      destruct (boot_next C p rest). cbn [fst snd] in *. split; [exact N | exact Q].
+    - pose proof (op_fail_quiet C p RCancelled) as Q. unfold op_fail in *. destruct (nth_error (c_ops C) p); cbn [fst snd] in *;
+        (split; [exact H | exact Q]). }
   destruct X as [C1 o1]. cbn [fst snd] in *. pose proof (IH C1 (S p) H1) as Q2. destruct (cancel_boots C1 n (S p)). cbn [snd] in *.
   apply quiet_app; assumption.
 Qed.
